@@ -136,7 +136,11 @@ PROPS["C07"] = e2("TestC07", "programmes drawn by rapid: 2-4 goroutines x 1-4 ca
                   "Oracle: race detector silent, no panic, no provable deadlock, and the recorded call/return history is linearizable (porcupine) w.r.t. the sequential watch-set specification; "
                   "stress part: watched paths themselves created/deleted/renamed meanwhile, WatchList never shows a duplicate or a never-added path, results within the allowed classes. "
                   "non-trivial = >=2 calls of different goroutines overlapped in real time on the same file or with Close; distinct = case text", 300, 1500, race=True, timeout="50m",
-                  parts=[dict(pkg="life", test="TestC07", replay_test="TestReplayC07"), dict(pkg="life", test="TestC07Stress", replay_test="TestReplayC07", single=True)])
+                  parts=[dict(pkg="life", test="TestC07", replay_test="TestReplayC07"), dict(pkg="life", test="TestC07Stress", replay_test="TestReplayC07", single=True),
+                         dict(pkg="props", test="TestC07Reader", replay_test="TestReplay", checks_scale=0.5)])
+PROPS["C07"]["rule"] += ("; plus a reader-interleaving part on the shadow-inotify engine: Add/Remove issued at harness-chosen points of the reader goroutine's progress through a burst (parked in a send with the rest unread, "
+                         "after j receives, between the records that end a watch), mixed with deletion, re-creation and re-adding of the watched paths; call results and WatchList at every quiescent point must be those of the "
+                         "sequential model applied to the calls in their order (a Remove racing a filesystem-ended watch may also return nil or EINVAL)")
 MANIFEST_TEXT["C07"] = dict(engine="E2", level_text="Exploration: schedules are sampled (Go scheduler, varied GOMAXPROCS, lock contention from event traffic), not enumerated; each sampled history is checked exhaustively for linearizability and the race detector watches every run.",
                             note="trusted: Go race detector; porcupine v1.3.0 linearizability checker; invoke/return stamps from one atomic counter; the filesystem objects named by the calls are static during the concurrent phase",
                             technique="property-based testing of concurrent programmes under -race with linearizability checking (porcupine) against the sequential model")
